@@ -212,10 +212,11 @@ impl TryFrom<&str> for Check {
     type Error = error::Token;
 
     fn try_from(value: &str) -> Result<Self, Self::Error> {
-        Ok(biscuit_parser::parser::check(value)
+        let (_, check) = biscuit_parser::parser::check(value)
             .finish()
-            .map(|(_, o)| o.into())
-            .map_err(biscuit_parser::error::LanguageError::from)?)
+            .map_err(biscuit_parser::error::LanguageError::from)?;
+        super::scope::check_parsed_scopes(&check.queries)?;
+        Ok(check.into())
     }
 }
 
@@ -223,9 +224,10 @@ impl FromStr for Check {
     type Err = error::Token;
 
     fn from_str(s: &str) -> Result<Self, Self::Err> {
-        Ok(biscuit_parser::parser::check(s)
+        let (_, check) = biscuit_parser::parser::check(s)
             .finish()
-            .map(|(_, o)| o.into())
-            .map_err(biscuit_parser::error::LanguageError::from)?)
+            .map_err(biscuit_parser::error::LanguageError::from)?;
+        super::scope::check_parsed_scopes(&check.queries)?;
+        Ok(check.into())
     }
 }
